@@ -8,6 +8,21 @@ pub mod axioms {
         ensures vstd::std_specs::hash::obeys_key_model::<[char; 4]>();
     }
 }
+pub mod diagn {
+    use vstd::prelude::*;
+    verus! {
+    #[verifier::external_body]
+    #[derive(Clone, Copy)]
+    pub struct Span { _p: u8 }
+    }
+}
+pub mod expr {
+    use vstd::prelude::*;
+    verus! {
+    #[verifier::external_body]
+    pub struct Expr { _p: u8 }
+    }
+}
 pub mod util {
     use vstd::prelude::*;
     use crate::*;
@@ -18,11 +33,10 @@ pub mod util {
 pub mod asm {
     use vstd::prelude::*;
     use crate::*;
+    pub use defs::*;
     verus! {
     #[verifier::external_body]
     pub struct Ruledef { _p: u8 }
-    #[verifier::external_body]
-    pub struct Rule { _p: u8 }
     pub mod defs {
         use vstd::prelude::*;
         use crate::*;
@@ -40,6 +54,48 @@ pub mod asm {
             pub open spec fn bucket(&self, key: RuledefMapPrefix) -> Seq<RuledefMapEntry> {
                 if self.prefixes_to_rules@.contains_key(key) { self.prefixes_to_rules@[key]@ } else { Seq::empty() }
             }
+        }
+        #[verifier::external_body]
+        pub struct RuleParameter { _p: u8 }
+        /// std gap (ASSUMED): char::to_ascii_lowercase is a function of the character
+        pub uninterp spec fn spec_lower(c: char) -> char;
+        pub assume_specification[ char::to_ascii_lowercase ](c: &char) -> (r: char)
+            ensures r == spec_lower(*c);
+
+        /// number of leading `Exact` parts of a pattern, capped at 4
+        pub open spec fn lead(pat: Seq<RulePatternPart>, k: int) -> int decreases k {
+            if k <= 0 { 0 } else if lead(pat, k - 1) == k - 1 && k - 1 < 4 && k - 1 < pat.len() && pat[k - 1] is Exact { k } else { lead(pat, k - 1) }
+        }
+        /// C08 property text: the key a rule is filed under = its first <= 4 leading literal characters,
+        /// lower-cased, NUL-padded
+        pub open spec fn rule_key(pat: Seq<RulePatternPart>) -> Seq<char> {
+            Seq::new(4, |j: int| if j < lead(pat, 4) { spec_lower(pat[j]->Exact_0) } else { '\0' })
+        }
+
+        /// R19 helper: stands for `MAP.entry(KEY).or_insert_with(|| Vec::new()).push(ENTRY)` (HashMap entry API,
+        /// no vstd specification). ASSUMED contract: the bucket of KEY gets ENTRY appended (a missing bucket counts
+        /// as empty), every other bucket is unchanged.
+        #[verifier::external_body]
+        pub fn verif_bucket_push(m: &mut std::collections::HashMap<RuledefMapPrefix, Vec<RuledefMapEntry>>, key: RuledefMapPrefix, entry: RuledefMapEntry)
+            ensures
+                final(m)@.contains_key(key),
+                final(m)@[key]@ == (if old(m)@.contains_key(key) { old(m)@[key]@ } else { Seq::empty() }).push(entry),
+                forall|k: RuledefMapPrefix| k != key ==> (#[trigger] final(m)@.contains_key(k) == old(m)@.contains_key(k)) && (old(m)@.contains_key(k) ==> final(m)@[k] == old(m)@[k]),
+        { unimplemented!() }
+        pub proof fn lemma_lead_step(pat: Seq<RulePatternPart>, k: int)
+            requires 0 <= k
+            ensures lead(pat, k + 1) == (if lead(pat, k) == k && k < 4 && k < pat.len() && pat[k] is Exact { k + 1 } else { lead(pat, k) }),
+                    0 <= lead(pat, k) <= k, lead(pat, k) <= 4
+            decreases k
+        {
+            if k > 0 { lemma_lead_step(pat, k - 1); }
+        }
+        /// once the run of leading literals has stopped at n (or reached 4), lead stays n
+        pub proof fn lemma_lead_total(pat: Seq<RulePatternPart>, n: int)
+            requires 0 <= n <= 4, lead(pat, n) == n, n == 4 || n >= pat.len() || !(pat[n] is Exact)
+            ensures lead(pat, 4) == n
+        {
+            lemma_lead_step(pat, 0); lemma_lead_step(pat, 1); lemma_lead_step(pat, 2); lemma_lead_step(pat, 3);
         }
         //@@ITEMS defs
     }
